@@ -388,6 +388,11 @@ def _exec_probe(net, op, i, ctx, h):
                 # number of iterations (e.g. after the outage of a large generator): "only changes the starting point"
                 conclusive = False
             elif nearby and (iters is None or iters <= WELL_CONDITIONED_ITERS) and isinstance(e_live, Exception) \
+                    and _normal_operating_point(ref) and not _best_case_start_converges(pre_live, ref, kw, ctx):
+                # Newton-Raphson does not get from the previous voltages to the new solution even when the missing
+                # entries are filled with the true solution: a start-point effect of the two operating points
+                conclusive = False
+            elif nearby and (iters is None or iters <= WELL_CONDITIONED_ITERS) and isinstance(e_live, Exception) \
                     and _normal_operating_point(ref):
                 sig = f"{base}|init-results-fails-nearby-state|{feature}"
                 detail = (f"live runpp({kw}) raised {o_live}: {e_live!s:.120}; the fresh calculation converges "
@@ -481,7 +486,18 @@ def _normal_operating_point(net):
     except Exception:
         return False
     vm = vm[~np.isnan(vm)]
-    return bool(len(vm)) and bool(vm.min() >= 0.8) and bool(vm.max() <= 1.2)
+    if not (bool(len(vm)) and bool(vm.min() >= 0.8) and bool(vm.max() <= 1.2)):
+        return False
+    # ... and no line carries an angle difference of more than 30 degrees (seen: 70 degrees across case14 with four
+    # lines out - from that start Newton-Raphson does not reach the solution of the re-closed net in 100 iterations)
+    try:
+        ln = net.line[net.line.in_service.values]
+        va = net.res_bus.va_degree
+        d = (va.reindex(ln.from_bus.values).values - va.reindex(ln.to_bus.values).values).astype(float)
+        d = np.abs(d[~np.isnan(d)])
+        return not (len(d) and d.max() > 30.0)
+    except Exception:
+        return True
 
 
 
@@ -492,13 +508,42 @@ def _slower_but_same(pre_live, kw, ref, e_live, ctx):
     import pandapower as pp
     if pre_live is None or not isinstance(e_live, LoadflowNotConverged) or "max_iteration" in kw:
         return False
-    _, e2 = c08._plain_call(lambda: pp.runpp(pre_live, **dict(kw, max_iteration=50)))
+    trial = copy.deepcopy(pre_live)          # (pre_live itself is needed again: its results are the start vector)
+    _, e2 = c08._plain_call(lambda: pp.runpp(trial, **dict(kw, max_iteration=50)))
     if e2 is not None:
         return False
-    d = oracles.compare_results(pre_live, ref, tables=["res_bus"], rtol=5e-5, atol=5e-5)
+    d = oracles.compare_results(trial, ref, tables=["res_bus"], rtol=5e-5, atol=5e-5)
     if d:
         return False
     ctx.probe("init_results_slower_but_same_solution")
+    return True
+
+
+
+def _best_case_start_converges(pre_live, ref, kw, ctx):
+    """explicit start vector = the previous bus voltages, entries that are missing there (previously unsupplied or
+    new buses) taken from the reference solution - the best any treatment of the previous results could do"""
+    import pandapower as pp
+    if pre_live is None or not len(pre_live.res_bus):
+        return True
+    try:
+        vm = pre_live.res_bus.vm_pu.reindex(ref.bus.index)
+        va = pre_live.res_bus.va_degree.reindex(ref.bus.index)
+        miss = vm.isna() | va.isna()
+        vm[miss] = ref.res_bus.vm_pu[miss]
+        va[miss] = ref.res_bus.va_degree[miss]
+        if vm.isna().any() or va.isna().any():
+            # (buses without a voltage in the reference as well: out of service / unsupplied)
+            vm = vm.fillna(1.0)
+            va = va.fillna(0.0)
+        t = oracles.scrubbed_copy(pre_live)
+        kw2 = {k: v for k, v in kw.items() if k not in ("init", "init_vm_pu", "init_va_degree")}
+        _, e = c08._plain_call(lambda: pp.runpp(t, init_vm_pu=vm, init_va_degree=va, **kw2))
+    except Exception:
+        return True
+    if e is not None:
+        ctx.probe("init_results_failure_is_a_start_point_effect")
+        return False
     return True
 
 
